@@ -21,7 +21,8 @@ def vet(src):
     sid = os.path.basename(src.rstrip("/"))
     prop = sid.split("_")[0]
     # the demos assert that the library is imported from the agent's own worktree, so vet there
-    wt = f"/tmp/wt/{prop}"
+    root = os.path.dirname(os.path.dirname(os.path.abspath(src.rstrip("/"))))     # /tmp/wt or /tmp/wt2
+    wt = os.path.join(root, prop)
     created = False
     if not os.path.isdir(wt):
         rc, out = sh(["git", "-C", "/repo", "worktree", "add", "--detach", wt, "HEAD", "-q"], "/")
